@@ -164,6 +164,17 @@ class Engine:
             s.add(extra)
         return s.check() != z3.unsat
 
+    def implied_arith(self, st, t, rlimit=300000):
+        """pc |= t from the arithmetic hypotheses alone, under a deterministic resource limit (not a wall-clock time-out, so the
+        answer -- and with it the shape of the terms built from it -- does not depend on machine load); unknown -> False"""
+        if t is True or z3.is_true(t):
+            return True
+        s = z3.Solver()
+        s.set('rlimit', rlimit)
+        s.add(*[c for c in st.pc if not _mentions_seq_ops(c)])
+        s.add(z3.Not(t))
+        return s.check() == z3.unsat
+
     def implied(self, st, t):
         """pc |= t (used only to keep values concrete / prune; unknown -> False)"""
         if t is True or z3.is_true(t):
@@ -255,7 +266,7 @@ class Engine:
             h = st.heap[v.oid]
             if h.kind in ('list', 'dict'):
                 return len(h.items) > 0
-            if h.kind == 'acc':
+            if h.kind in ('acc', 'pacc'):
                 return (h.items[0] > 0) if isinstance(h.items[0], int) else (zint(h.items[0]) > 0)
             if h.kind == 'bytearray':
                 return self.truth(h.items, st)
